@@ -206,9 +206,10 @@ IV_ALPHA = ["tpc 0 2", "tpr 0 3", "tpe 0 4", "upc 0 5", "upr 0 6", "upe 0 7", "p
 # owners of one object: variant / optional / expected / inplace_function
 OWN_KINDS = {
     # kind: (indices, flavours)
-    "var": ([0, 1, 2], ["cm", "m", "c"]),
-    "opt": ([0, 1], ["cm", "m", "c"]),
-    "exp": ([0, 1], ["cm", "m", "c"]),
+    # flavour t: copy-only with a defaulted (trivial) copy assignment but user-provided copy constructor / destructor
+    "var": ([0, 1, 2], ["cm", "m", "c", "t"]),
+    "opt": ([0, 1], ["cm", "m", "c", "t"]),
+    "exp": ([0, 1], ["cm", "m", "c", "t"]),
     "fun": ([0, 1, 2], ["cm", "c"]),
 }
 OWN_COPY_OPS = ("vac", "vca", "vsc", "vcc", "vvc", "voc")
